@@ -15,14 +15,16 @@ import (
 // C06 — MaxMessageBytes bounds what a backend is handed and what is accepted.
 
 type c06Case struct {
-	N        int64   `json:"n"`      // MaxMessageBytes
-	Size     int     `json:"size"`   // message size (unstuffed octets)
-	Chunks   []int   `json:"chunks"` // nil = DATA, else BDAT chunk sizes (sum == Size), LAST on the final one
-	Stuffed  bool    `json:"stuffed"`
-	ReadSize int     `json:"read_size"`
-	Decl     int64   `json:"decl"` // declared SIZE= (-1 = absent)
-	Mode     srvMode `json:"mode"`
-	Variant  string  `json:"variant"` // message content: "" letters | xdot | dotlines
+	N         int64   `json:"n"`      // MaxMessageBytes
+	Size      int     `json:"size"`   // message size (unstuffed octets)
+	Chunks    []int   `json:"chunks"` // nil = DATA, else BDAT chunk sizes (sum == Size), LAST on the final one
+	Stuffed   bool    `json:"stuffed"`
+	ReadSize  int     `json:"read_size"`
+	Decl      int64   `json:"decl"` // declared SIZE= (-1 = absent)
+	Mode      srvMode `json:"mode"`
+	HugeFirst string  `json:"huge_first"` // a BDAT command with this (unrepresentable) size and no payload precedes the chunks
+	Second    int     `json:"second"`     // size of a second message sent on the same connection with the same kind of transfer (0 = none)
+	Variant   string  `json:"variant"`    // message content: "" letters | xdot | dotlines
 }
 
 func init() {
@@ -97,6 +99,26 @@ func c06Run(ctx *core.Ctx) {
 					}
 				}
 			}
+			// an unrepresentable chunk size first (must not corrupt the byte accounting), then an oversized message
+			for _, hs := range []string{"9223372036854775808", "18446744073709551516", "18446744073709551615", "18446744073709551616"} {
+				for _, over := range []int{int(N) + 1, int(N) + 50} {
+					idx++
+					emit(c06Case{N: N, Size: over, Chunks: []int{over, 0}, HugeFirst: hs, ReadSize: 4096, Decl: -1, Mode: modes[idx%3]})
+					emit(c06Case{N: N, Size: over, Chunks: []int{over / 2, over - over/2}, HugeFirst: hs, ReadSize: 3, Decl: -1, Mode: modes[(idx+1)%3]})
+				}
+			}
+			// two messages on one connection, each within the limit, together above it
+			for _, s1 := range []int{int(N), int(N) - 1, int(N)/2 + 1} {
+				for _, s2 := range []int{int(N), int(N) - 1, int(N)/2 + 1, 2} {
+					if s1 < 2 || s2 < 2 {
+						continue
+					}
+					idx++
+					emit(c06Case{N: N, Size: s1, Second: s2, ReadSize: 4096, Decl: -1, Mode: modes[idx%3]})
+					emit(c06Case{N: N, Size: s1, Second: s2, Chunks: []int{s1 / 2, s1 - s1/2}, ReadSize: 3, Decl: -1, Mode: modes[(idx+1)%3]})
+					emit(c06Case{N: N, Size: s1, Second: s2, Chunks: []int{s1}, ReadSize: 4096, Decl: -1, Mode: modes[(idx+2)%3]})
+				}
+			}
 			// declared SIZE on its own (message fits)
 			for _, decl := range []int64{N - 1, N, N + 1, 2 * N, 1<<32 - 1, 0} {
 				if decl < 0 {
@@ -114,6 +136,8 @@ func c06Run(ctx *core.Ctx) {
 
 type c06Outcome struct {
 	mailCode   int
+	finals2    []int // the same for the second message
+	read2      string
 	finals     []int // reply codes of the final reply/replies for the message (DATA) or per BDAT command
 	read       string
 	term       string
@@ -228,7 +252,11 @@ func c06One(c c06Case, limit int64) c06Outcome {
 				o.resetAfter = true
 			}
 		}
-		for _, d := range dataEnds(ev) {
+		for di, d := range dataEnds(ev) {
+			if c.Second > 0 && di >= 1 {
+				o.read2 += d.A
+				continue
+			}
 			o.dataCalls++
 			total += len(d.A)
 			o.read += d.A
@@ -281,6 +309,10 @@ func c06One(c c06Case, limit int64) c06Outcome {
 			return done()
 		}
 	} else {
+		if c.HugeFirst != "" {
+			p.SendStr("BDAT " + c.HugeFirst + "\r\n")
+			p.ReadUntilStall() // whatever the answer is, it is not part of the message's replies
+		}
 		off := 0
 		for i, n := range c.Chunks {
 			cmd := fmt.Sprintf("BDAT %d", n)
@@ -306,13 +338,44 @@ func c06One(c c06Case, limit int64) c06Outcome {
 		return done()
 	}
 	o.after = r.Code
+	if c.Second > 0 {
+		c2 := c
+		c2.Size, c2.Variant, c2.Stuffed = c.Second, "", false
+		msg2 := c06Message(c2)
+		p.SendStr("MAIL FROM:<s2@x.test>\r\nRCPT TO:<r1@x.test>\r\n")
+		if c.Mode.lmtp() {
+			p.SendStr("RCPT TO:<r2@x.test>\r\n")
+		}
+		if _, err := expect(p, 1+nr); err != nil {
+			o.err = err
+			return done()
+		}
+		if c.Chunks == nil {
+			rr, err := p.Cmd("DATA")
+			if err != nil || rr.Code != 354 {
+				o.err = fmt.Errorf("second DATA not accepted: %v %v", rr, err)
+				return done()
+			}
+			p.Send(append(append([]byte{}, msg2...), ".\r\n"...))
+		} else {
+			p.Send(append([]byte(fmt.Sprintf("BDAT %d LAST\r\n", len(msg2))), msg2...))
+		}
+		rs, err := p.ReadUntilStall()
+		for _, r := range rs {
+			o.finals2 = append(o.finals2, r.Code)
+		}
+		if err != nil {
+			o.err = err
+			return done()
+		}
+	}
 	p.Cmd("QUIT")
 	return done()
 }
 
 func c06Exec(ctx *core.Ctx, c c06Case) {
 	near := int64(c.Size) >= c.N-2
-	ctx.Eval(fmt.Sprintf("%d|%d|%v|%v|%d|%d|%s|%s", c.N, c.Size, c.Chunks, c.Stuffed, c.ReadSize, c.Decl, c.Mode, c.Variant), near || c.Decl >= 0)
+	ctx.Eval(fmt.Sprintf("%d|%d|%v|%v|%d|%d|%s|%s|%d", c.N, c.Size, c.Chunks, c.Stuffed, c.ReadSize, c.Decl, c.Mode, c.Variant, c.Second)+c.HugeFirst, near || c.Decl >= 0)
 	o := c06One(c, c.N)
 	if o.inconcl || isWatchdog(o.err) {
 		ctx.Inconclusive("C06 watchdog")
@@ -405,6 +468,18 @@ func c06Exec(ctx *core.Ctx, c c06Case) {
 	for _, f := range o.finals {
 		if f != 250 {
 			fail("C06:fits-not-accepted", fmt.Sprintf("replies %v", o.finals))
+			return
+		}
+	}
+	if c.Second > 0 && int64(c.Second) <= c.N {
+		okAll := len(o.finals2) > 0
+		for _, f := range o.finals2 {
+			if f != 250 {
+				okAll = false
+			}
+		}
+		if !okAll || len(o.read2) != c.Second {
+			fail("C06:second-message-affected-by-first", fmt.Sprintf("a second message of %d octets (limit %d) on the same connection after a first one of %d octets: replies %v, backend read %d octets", c.Second, c.N, c.Size, o.finals2, len(o.read2)))
 			return
 		}
 	}
